@@ -590,11 +590,19 @@ def h_crash(sym):
         assert 2 <= L <= sym.B.get('maxlen', 2048)
         if sym.B.get('mode') == 'foreign':
             # ---- "otherwise unparsable": the file is complete, well-formed bytes that are not a usable table
-            variants = _foreign_variants(content)
+            variants = _foreign_variants(content) + [('truncated-half', content[:L // 2]), ('empty', b'')]
             k = sym.choice('variant', len(variants))
             sym.apply_known()
-            with open(vfile, 'wb') as fh:
-                fh.write(variants[k][1])
+            if sym.B.get('victim_in_ro'):
+                # the unusable file sits in the READ-ONLY directory (shipped cache): it must be treated as a miss and left alone
+                os.remove(vfile)
+                with open(ro + '/' + ('%08X.json' % vcrc), 'wb') as fh:
+                    fh.write(variants[k][1])
+                ro_before = _tree(ro)
+                sym.goal('unusable-file-in-ro')
+            else:
+                with open(vfile, 'wb') as fh:
+                    fh.write(variants[k][1])
             sym.goal('foreign:' + variants[k][0])
         else:
             # ---- the crash: the write of that file got as far as byte k
@@ -650,6 +658,9 @@ HARNESSES = [
     Harness('foreign[log]', h_crash, quick=dict(log='one', param='one', victim='log', mode='foreign'), symbolic=False,
             goals=('recovered', 'foreign:no-ident', 'foreign:unknown-class', 'foreign:json-null'), timeout=(300, 900),
             note='complete but unusable cache files (older format, unknown class, wrong JSON shape), chosen by the solver from a fixed list'),
+    Harness('foreign[log,in ro]', h_crash, quick=dict(log='one', param='one', victim='log', mode='foreign', victim_in_ro=True), symbolic=False,
+            goals=('recovered', 'unusable-file-in-ro'), timeout=(300, 900),
+            note='the unusable file is in the read-only directory: miss, download, and the read-only directory stays byte-identical'),
     Harness('foreign[param]', h_crash, quick=dict(log='one', param='one', victim='param', mode='foreign'), symbolic=False,
             goals=('recovered', 'foreign:no-extended', 'foreign:unknown-class'), timeout=(300, 900),
             note='complete but unusable cache files (older format, unknown class, wrong JSON shape), chosen by the solver from a fixed list'),
@@ -668,6 +679,8 @@ HARNESSES = [
     Harness('fetcher[param]', h_fetcher, quick=dict(kind='param', first='two', second='one'),
             thorough=dict(kind='param', first='three', second='odd'), goals=('hit', 'miss'), timeout=(300, 900)),
     Harness('fetcher[log,empty]', h_fetcher, quick=dict(kind='log', first='empty', second='one'), goals=('miss',), timeout=(300, 900)),
+    Harness('collision[equal sizes]', h_collision, quick=dict(log='one', param='one', connections=2),
+            thorough=dict(log='two', param='two', connections=3), goals=('collision', 'both-cached'), timeout=(300, 900)),
     Harness('collision', h_collision, quick=dict(log='one', param='three', connections=2),
             thorough=dict(log='three', param='three', connections=3), goals=('collision', 'both-cached'), timeout=(300, 900)),
     Harness('crash[empty-log]', h_crash, quick=dict(log='empty', param='one', victim='log'), goals=('empty-file', 'last-byte-missing', 'recovered'),
